@@ -96,6 +96,7 @@ type conn struct {
 }
 
 type sess struct {
+	small   bool  // the engine's connection table is smaller than any descriptor number a conn can get (MaxOpenFiles)
 	async   bool  // AsyncReadInPoller
 	tasks   int32 // read tasks handed to the IO executor and not finished yet
 	mode    string
@@ -814,11 +815,16 @@ func exec(e *lp.Exec) {
 		if f[0] == "C" {
 			finish()
 			e.P("> %s", line)
-			if len(f) != 5 && len(f) != 6 {
+			if len(f) < 5 || len(f) > 7 {
 				e.P("bad-op")
 				continue
 			}
-			async := len(f) == 6 && f[5] == "1"
+			async := len(f) >= 6 && f[5] == "1"
+			small := len(f) == 7 && f[6] == "1"
+			if small && f[4] == "1" {
+				e.P("bad-op")
+				continue
+			}
 			np, _ := strconv.Atoi(f[2])
 			mw, _ := strconv.Atoi(f[3])
 			if !(f[1] == "lt" || f[1] == "et" || f[1] == "os") || np <= 0 {
@@ -826,7 +832,17 @@ func exec(e *lp.Exec) {
 				continue
 			}
 			var err error
+			// the table is allocated when the engine is built: every conn of a `small` case finds its descriptor number
+			// beyond it (the "too many open files" branches of addConn / addDialer)
+			nbio.MaxOpenFiles = 1 << 14
+			if small {
+				nbio.MaxOpenFiles = 3
+			}
 			s, err = newSess(f[1], np, mw, f[4] == "1", async)
+			nbio.MaxOpenFiles = 1 << 14
+			if err == nil {
+				s.small = small
+			}
 			if err != nil {
 				e.P("bad-op start %v", err)
 				s = nil
@@ -835,7 +851,8 @@ func exec(e *lp.Exec) {
 			s.file = tmp
 			key.Reset()
 			nontrivial = false
-			fmt.Fprintf(&key, "%s/%v/%v|", f[1], mw > 0, async)
+			fmt.Fprintf(&key, "%s/%v/%v/%v|", f[1], mw > 0, async, small)
+			e.Count("table", map[bool]string{false: "normal", true: "too-small"}[small])
 			e.Count("async", fmt.Sprint(async))
 			e.Count("mode", f[1])
 			e.P("ok")
@@ -852,6 +869,13 @@ func exec(e *lp.Exec) {
 		}
 		ci := s.conns[id]
 		bad := func() { e.P("> %s", line); e.P("bad-op") }
+		if s.small {
+			switch f[0] {
+			case "addc", "addx", "addcr", "addudp", "dialx", "dialrace", "acc", "rdial", "hupbusy", "dgram":
+				bad() // these ops need a conn that got into the table
+				continue
+			}
+		}
 		switch f[0] {
 		case "add", "addc", "addx":
 			if len(f) != 3 || ci != nil || (f[2] != "tcp" && f[2] != "unix") {
@@ -1023,6 +1047,9 @@ func exec(e *lp.Exec) {
 			if err != nil {
 				// the error return is the (one) report of this dial
 				ci.dials = append(ci.dials, errClass(err))
+				if len(ci.dials) > 1 {
+					s.orc = append(s.orc, fmt.Sprintf("c03-dial conn %d: DialAsync returned an error (%s) AND the dial callback was invoked (%s): the outcome of the dial is reported twice", id, errClass(err), strings.Join(ci.dials[:len(ci.dials)-1], ",")))
+				}
 			}
 			s.mu.Unlock()
 			if ms > 0 && f[2] == "inprog" && err == nil && ci.c != nil {
@@ -1558,6 +1585,34 @@ func exec(e *lp.Exec) {
 
 func gen(g *lp.Gen) {
 	for cs := 0; cs < g.N; cs++ {
+		if cs%25 == 11 {
+			// the engine's connection table is too small for any descriptor: every AddConn / DialAsync takes its
+			// "too many open files" branch — a failed add closes the conn without notifications, a failed dial is reported by
+			// the error return alone
+			g.P("C %s %d %d 0 %d 1", g.Pick("lt", "et", "os"), g.PickInt(1, 2), g.PickInt(0, 100), g.Intn(2))
+			n := 2 + g.Intn(4)
+			for id := 1; id <= n; id++ {
+				if g.Chance(1, 3) {
+					g.P("add %d %s", id, g.Pick("tcp", "unix"))
+				} else {
+					ms := 0
+					if g.Chance(1, 3) {
+						ms = 1 + g.Intn(3)
+					}
+					g.P("dial %d %s %d", id, g.Pick("inprog", "inprog", "now", "refused"), ms)
+				}
+				switch g.Intn(4) {
+				case 0:
+					g.P("ops %d", id)
+				case 1:
+					g.P("close %d 2 %d,%d", id, g.Intn(4), g.Intn(4))
+				case 2:
+					g.P("w %d %d ok", id, 1+g.Intn(20))
+				}
+			}
+			g.P("stop")
+			continue
+		}
 		mode := g.Pick("lt", "et", "os")
 		np := g.PickInt(1, 2)
 		maxwb := g.PickInt(0, 0, 100)
